@@ -7,7 +7,7 @@ HOOK_COMMITS = subprocess.run(["git", "-C", "/repo", "log", "--format=%h %s", "-
 
 # id -> (technique, level text, level note, design ref)
 CLAIMED = {
- "C05": ("fault-injection property testing: generated live sessions (calls in flight, busy publishers, consumers, half-assembled content) x one generated fault (EOF / I/O error at a byte offset, write error at the n-th write, malformed frame, server close, forced client exception, heartbeat silence); oracle = invariants on every caller's result, consumer termination, close's root cause and transport release",
+ "C05": ("fault-injection property testing: generated live sessions (calls in flight, busy publishers, consumers, half-assembled content) x one generated fault (EOF / I/O error at a byte offset, write error at the n-th write, malformed frame, server close, forced client exception with short or long non-ASCII text, a close whose answer cannot be flushed followed by silence or by the end of the stream, heartbeat silence); oracle = invariants on every caller's result, consumer termination, close's root cause and transport release",
          "Exploration over crash points: every caller is released with an error, consumer queues terminate, Connection::close names the root cause (variant, io kind, code/text), the transport is dropped, no panic - all within seconds.",
          "Fault positions are byte offsets of the inbound stream / write-call indices of the outbound stream owned by the mock transport; what the client threads were doing at that instant is sampled by OS scheduling. A fault that never became visible is a trivial case. Hangs need confirmation by replay.",
          "DESIGN.md 4/C05"),
@@ -19,7 +19,7 @@ CLAIMED = {
          "Exploration: while the transport accepts nothing, accepted-minus-written bytes stay within a tuning-derived limit and publishers block; after release everybody resumes (including an open_channel issued during the stall) and every accepted message is on the wire exactly once, in order.",
          "The limit is deliberately generous (the I/O loop tests the mark only between event batches): high-water + channels x (4 x bound + 8) x message size; total quota is four times that, so missing throttling overshoots it. mem_channel_bound = 0 is a separate enumerated scenario.",
          "DESIGN.md 4/C18"),
- "C08": ("property-based testing of the close handshake: generated session state (channels, consumers, racing numbered publishes and calls on other threads, stalled transport) x close direction x server follow-up; oracle = invariants over the final wire log and every caller's first error",
+ "C08": ("property-based testing of the close handshake: generated session state (channels, consumers - up to thousands, dropped by their owner the moment its racing operation fails -, racing numbered publishes and calls on other threads, transport stalled in the middle of a frame, low-water marks 0 / 12 / 1 MiB) x close direction x server follow-up; oracle = invariants over the final wire log and every caller's first error",
          "Exploration: final frame, exactly-one close frames, close result in all follow-up variants, first error per channel, terminal message per consumer, and gap-free prefix of each channel's racing publishes.",
          "Racing threads are scheduled by the OS (sampled). A publish cut short by the close is accepted only as the last thing on its channel.",
          "DESIGN.md 4/C08"),
@@ -27,7 +27,7 @@ CLAIMED = {
          "Exploration: every listener instance must receive exactly the events sent for its channel during its lifetime, verbatim and in order; replaced listeners are disconnected; events without a listener are discarded without disturbing the connection.",
          "A registration without a barrier is only ordered before events it causally precedes (a publish on the same channel and its confirm); before any other server event on that channel the harness inserts the barrier.",
          "DESIGN.md 4/C13"),
- "C01": ("property-based testing with fault-scripted transport: generated multi-thread / multi-channel op programs against a generated write script (short writes, would-block with and without re-arm) on the mock transport; oracle = independent envelope parser + per-channel expected frame concatenation",
+ "C01": ("property-based testing with fault-scripted transport: generated multi-thread / multi-channel op programs against a generated write script (short writes, would-block with and without re-arm) on the mock transport, plus close handshakes (either side) that meet a backlog whose head was cut by a short write; oracle = independent envelope parser + per-channel expected frame concatenation",
          "Exploration: the complete outbound log must be the protocol header plus whole frames, and each channel's frames must be exactly the concatenation of what its ops emit in issue order; a handshake or call that never completes under a write script is reported after confirmation by replay.",
          "The I/O-thread side of the schedule (what every write call accepts) is owned by the harness; client-thread interleavings are sampled by OS scheduling. Write scripts are cycled up to 20 times (up to 4000 steps).",
          "DESIGN.md 4/C01"),
@@ -39,7 +39,7 @@ CLAIMED = {
          "Exploration: every call must return exactly the values of the reply generated for its channel and sequence number, however replies are delayed, reordered and glued; nowait variants return without a reply; the wire per channel equals the expected frames.",
          "Client threads are scheduled by the OS (sampled); the broker owns reply order and timing. At most one outstanding call per channel is a type-system fact.",
          "DESIGN.md 4/C04"),
- "C09": ("property-based testing: the C04 sessions plus one generated server-initiated Channel.Close (idle / call in flight / half-received content, optionally glued to other channels' replies); oracle = per-channel reference of results, errors and wire prefix",
+ "C09": ("property-based testing: the C04 sessions plus one generated server-initiated Channel.Close (idle / call in flight / half-received content, optionally glued to other channels' replies); plus sessions in which Channel::close crosses the server's Channel.Close and is answered with CloseOk; oracle = per-channel reference of results, errors and wire prefix",
          "Exploration: on the closed channel results before the close equal the expectation, the failing call carries ServerClosedChannel{n, code, text}, later calls fail, the wire is a prefix plus exactly one CloseOk; all other channels keep the C04 oracle, the id is reusable, the session closes Ok.",
          "The ServerClosedChannel error is handed to exactly one call; when that call is the implicit cancel inside Consumer::drop (whose result Drop discards) the next visible error may be EventLoopDropped, which is then accepted.",
          "DESIGN.md 4/C09"),
@@ -55,7 +55,7 @@ CLAIMED = {
          "Exploration: streams of real frames of every kind (plus malformed / EOF / I/O-error tails) are fed under arbitrary read segmentations; frames handed over, their timing (promptness per read_from call), byte counts and the terminal error must equal the reference, and two segmentations of one stream must agree. A second part runs whole sessions in which server frames follow OpenOk with the read boundary anywhere inside them: the session must open, work and close (or report the server's close, answered exactly once) wherever the cut falls.",
          "Hook: amiquip::verif::FrameBuffer (re-export). Frames <= 20 KB. The client's reaction to segmentations in the steady state is exercised by C03's segmentations.",
          "DESIGN.md 4/C06"),
- "C07": ("property-based testing with a reference reader: generated sequences over an alphabet of server frames (one production per dispatch arm) played to the real client; model-based probe of the collector incl. extreme announced sizes; process aborts caught by subprocess + journal replay",
+ "C07": ("property-based testing with a reference reader: generated sequences over an alphabet of server frames (one production per dispatch arm) played to the real client; model-based probe of the collector incl. extreme announced sizes; a batch part that makes a protocol violation and client requests arrive in one wake-up of the I/O thread; process aborts caught by subprocess + journal replay",
          "Exploration: safety (no panic, no abort, observed messages are a prefix of the compliant reading, every call returns) on every sequence, and exact error / hard-error code classification whenever the first irregularity is one the property names.",
          "Reference reader written from the property text and AMQP content-framing rules; irregularities the property does not name (unsolicited replies, heartbeat on a non-zero channel, CloseOk for unknown channels) get the safety oracle only. A non-content method between a content method and its header is treated as not named.",
          "DESIGN.md 4/C07"),
